@@ -73,18 +73,44 @@ def single_defs(f, upto_stmts):
     id -> defining expression"""
     count = {}
     where = {}
+    texts = {}
+
+    def define(vid, rhs, plain=True):
+        tx = canon(rhs)
+        if plain and vid in texts and texts[vid] == tx:
+            return                      # re-assignment of the very same expression (ldb = Bstore->lda twice)
+        count[vid] = count.get(vid, 0) + (1 if plain else 2)
+        if vid not in where:
+            where[vid] = rhs
+            texts[vid] = tx
+    # &v handed to a Fortran-style external kernel at a position it only reads (dtrsm_(..., &ldb)) is not a definition
+    from .effects import external_writes
+    byref_reads = set()
     for n in f.body.walk():
+        if n.k == 'Call':
+            name = callee_name(n)
+            if name and name.endswith('_'):
+                wr = external_writes(name, len(n.c) - 1)
+                if wr is not None:
+                    for i, a in enumerate(n.c[1:]):
+                        a = strip(a)
+                        if i not in wr and a.k == 'Unary' and a.a['op'] == '&':
+                            byref_reads.add(id(a))
+    def region_walk():
+        # definitions are counted inside the screening region only: conditions there are evaluated before anything later runs
+        for st in upto_stmts:
+            for n in st.walk():
+                yield n
+    for n in region_walk():
         if n.k == 'Var' and n.c:
-            count[n.a['id']] = count.get(n.a['id'], 0) + 1
-            where[n.a['id']] = n.c[0]
+            define(n.a['id'], n.c[0])
         elif n.k == 'Assign':
             l = strip(n.c[0])
             if l.k == 'Ref':
-                count[l.a['id']] = count.get(l.a['id'], 0) + (1 if n.a['op'] == '=' else 2)
-                where[l.a['id']] = n.c[1]
+                define(l.a['id'], n.c[1], n.a['op'] == '=')
         elif n.k == 'Unary' and n.a['op'] in ('++', '--', '&'):
             l = strip(n.c[0])
-            if l.k == 'Ref':
+            if l.k == 'Ref' and not (n.a['op'] == '&' and id(n) in byref_reads):
                 count[l.a['id']] = count.get(l.a['id'], 0) + 2
     region_nodes = set()
     for s in upto_stmts:
